@@ -187,13 +187,16 @@ def smtlib_member_runs(ck, quick, id0):
     m = fresh_env().formula_manager
     p, q = m.Symbol("p", BOOL), m.Symbol("q", BOOL)
     asserts = [term_io.export(m.Or(p, q)), term_io.export(p)]
+    a3 = term_io.export(m.Or(m.Not(p), m.Not(q)))
+    by_label = {"solve": asserts, "is_sat, add_assertion, solve": asserts + [a3],
+                "push, add_assertion, solve": asserts + [a3, term_io.export(q)], "pop, solve": asserts + [a3], "cycle": asserts}
     scen = os.path.join(VERIF, "harness", "fakes", "portfolio_smtlib_scenario.py")
     evs = []
     running = []
 
     def start(vec):
         d = tempfile.mkdtemp(prefix="c19m_")
-        env = dict(os.environ, VERIF_REPO=REPO, PYTHONPATH=REPO)
+        env = dict(os.environ, VERIF_REPO=REPO, PYTHONPATH=REPO, C19_CYCLE="1")
         pr = subprocess.Popen([sys.executable, scen, os.path.join(d, "out.json"), d] + vec, env=env, start_new_session=True,
                               stdout=subprocess.DEVNULL, stderr=subprocess.DEVNULL)
         return {"vec": vec, "dir": d, "proc": pr, "t0": time.time(), "all_ended_at": None}
@@ -207,13 +210,17 @@ def smtlib_member_runs(ck, quick, id0):
         shutil.rmtree(r["dir"], ignore_errors=True)
         vec = r["vec"]
         beh = ["sat" if b == "good" else ("unknown" if b == "unknown" else "crash_pre") for b in vec]
-        rd = {"res": res.get("res", "slow"), "exc": res.get("exc", ""), "model": [], "value": res.get("value", "na"), "served": [],
-              "winner": 0, "has_model": False, "verdict": "sat", "asserts": asserts}
-        if rd["res"] == "sat" and res.get("model"):
-            rd["model"] = [{"n": n_, "v": term_io.export(m.Bool(v_))} for n_, v_ in res["model"]]
-            rd["has_model"] = True
+        rounds = []
+        for rr in (res.get("rounds") or [res]):
+            live = by_label.get(rr.get("label", "solve"), asserts)
+            rd = {"res": rr.get("res", "slow"), "exc": rr.get("exc", ""), "model": [], "value": rr.get("value", "na"), "served": [],
+                  "winner": 0, "has_model": False, "verdict": "sat", "asserts": live, "decide": True}
+            if rd["res"] == "sat" and rr.get("model"):
+                rd["model"] = [{"n": n_, "v": term_io.export(m.Bool(v_))} for n_, v_ in rr["model"]]
+                rd["has_model"] = True
+            rounds.append(rd)
         evs.append({"id": id0 + len(evs), "kind": "portfolio", "beh": beh, "verdict": "sat", "order": [], "late": [], "tie": False,
-                    "asserts": asserts, "rounds": [rd], "members": "smtlib:" + ",".join(vec)})
+                    "asserts": asserts, "rounds": rounds, "members": "smtlib:" + ",".join(vec)})
         ck.count()
         ck.nontrivial(("smtlib", tuple(vec)))
 
@@ -230,17 +237,17 @@ def smtlib_member_runs(ck, quick, id0):
                 finish(r, json.load(open(out)))
             elif r["proc"].poll() is not None:
                 running.remove(r)
-                finish(r, {"res": "raised", "exc": "scenario process ended without a result (rc %s)" % r["proc"].returncode})
+                finish(r, {"rounds": [{"label": "solve", "res": "raised", "exc": "scenario process ended without a result (rc %s)" % r["proc"].returncode}]})
             else:
                 ended = all(os.path.exists(os.path.join(r["dir"], "m%d" % (i + 1))) for i in range(len(r["vec"])))
                 if ended and r["all_ended_at"] is None:
                     r["all_ended_at"] = now
                 if r["all_ended_at"] is not None and now - r["all_ended_at"] > GRACE:
                     running.remove(r)
-                    finish(r, {"res": "blocked"})
+                    finish(r, {"rounds": [{"label": "solve", "res": "blocked"}]})
                 elif now - r["t0"] > LIMIT:
                     running.remove(r)
-                    finish(r, {"res": "slow"})
+                    finish(r, {"rounds": [{"label": "solve", "res": "slow"}]})
     return evs
 
 
